@@ -50,6 +50,12 @@ def candidates(node):
 
 def index_of(cands, value):
     for i, c in enumerate(cands):
+        if isinstance(c, float) and math.isnan(c):
+            if isinstance(value, float) and math.isnan(value):
+                return i
+            continue
+        if isinstance(value, float) and math.isnan(value):
+            continue
         if type(c) is bool or type(value) is bool or c is None or value is None or isinstance(c, str) \
                 or isinstance(value, str):
             if type(c) is type(value) and c == value:
@@ -326,8 +332,12 @@ def run_bf(sc):
     return {"prog": leaf_paths(prog), "ev": ev}
 
 
+def _denan(xs):
+    return [math.nan if x == "nan!" else x for x in xs]      # "nan!" stands for float("nan"): scenarios are kept as JSON
+
+
 def grid_values(p):
-    return candidates(p) if p["k"] != "raw" else list(p["a"]["values"])
+    return _denan(candidates(p)) if p["k"] != "raw" else list(p["a"]["values"])
 
 
 def run_grid(sc):
@@ -370,7 +380,7 @@ def run_grid(sc):
 def _suggest_grid(trial, p):
     k, a = p["k"], p["a"]
     if k == "cat":
-        return trial.suggest_categorical(p["n"], a["choices"])
+        return trial.suggest_categorical(p["n"], _denan(a["choices"]))
     if k == "int":
         return trial.suggest_int(p["n"], a["low"], a["high"])
     if k == "raw":      # grid values that are not aligned with the distribution (allowed by the docstring)
@@ -452,7 +462,9 @@ def gen_grid(ctx, fam):
         name = f"{kind[0]}{i}"
         if kind == "cat":
             opts = [c for c in _CAT_POOL if len(c) == k] or [[f"o{j}" for j in range(k)]]
-            cat_choices[name] = rng.choice(opts)
+            cat_choices[name] = list(rng.choice(opts))
+            if rng.random() < 0.2:      # a categorical grid may contain NaN (tests/samplers_tests/test_grid.py::test_nan)
+                cat_choices[name][rng.randrange(k)] = "nan!"
             a = {"choices": cat_choices[name]}
         elif kind == "int":
             low = rng.choice([-2, 0, 1])
@@ -481,9 +493,10 @@ def gen_grid(ctx, fam):
             for j in rng.sample(range(0, n - 1), rng.randint(1, min(2, n - 1))):
                 sc.setdefault("crash", {})[str(j)] = rng.choice(["crash", "ki"])
         r = rng.random()
-        if r < 0.01:
+        has_nan = any(p["k"] == "cat" and "nan!" in p["a"]["choices"] for p in params)
+        if r < 0.01 or (has_nan and r < 0.2):
             sc["storage"] = "sqlite"
-        elif r < 0.08:
+        elif r < 0.08 or (has_nan and r < 0.7):      # NaN survives JSON / SQL differently from an object kept in memory
             sc["storage"] = "journal"
     else:
         # user-enqueued full combinations before some of the calls (at most 2 in total)
